@@ -356,6 +356,7 @@ contract(
     locals={"events_upsert": "List[Event]", "events_insert": "List[Event]", "event_rows": "List[Tuple[str, float, float, str]]"},
     requires=["lazy_inv(self)"],
     ghost_vars={"U": ("List[Event]", "[]"), "N": ("List[Event]", "[]"), "last": ("IntMap", "mnew()")},
+    ghost_returns={"U": "List[Event]", "N": "List[Event]", "last": "IntMap"},      # (witnesses of the postcondition, for callers)
     ghost_code=[dict(after="events_upsert = [", code="U = events_upsert"),
                 dict(after="events_insert = [", code="N = events_insert")],
     ensures=[
@@ -371,6 +372,7 @@ contract(
         # every event without an id gets a new row (ids never used before, consecutive, in order) in the addressed bucket
         "ev_max(self) == old(ev_max(self)) + len(N)",
         "all(in_bucket(self, old(ev_max(self)) + 1 + j, bucket_id) and holds(self, old(ev_max(self)) + 1 + j, N[j]) for j in range(len(N)))",
+        "all(i <= old(ev_max(self)) or i > ev_max(self) or in_bucket(self, i, bucket_id) for i in event_ids(self))",      # (the same, by row id)
         # every other row: rewritten by the last upsert addressed to it if it is a live event of the addressed bucket, else untouched
         UPSERTED.format(COND=" if i <= old(ev_max(self)) or i > ev_max(self)"),
         # C18: a pure bulk insert issued more than ten seconds after the previous flush is flushed before it returns
